@@ -494,6 +494,17 @@ class modict(odict):
     def copy(self):
         return self.__class__(self)
 
+    def sift(self, fields=None):
+        """
+        Return shallow copy modict with every value of the items keyed by
+        fields in that order. All items if fields is not provided.
+        Raises KeyError if no entry for a given field name
+        """
+        if fields is None:
+            return self.copy()
+        return self.__class__([(k, v) for k in fields
+                               for v in dict.__getitem__(self, k)])
+
     def get(self, key, default=None, index=-1, kind=None):
         """
         Return the most recent value for a key, that is, the last element
